@@ -200,9 +200,9 @@ def c18_check(tier, replay=None):
     rep = Report("C18", tier)
     rep.t0 = t_start
     d = scratch("c18")
-    total = 6400 if tier == "quick" else 480000
+    total = 40000 if tier == "quick" else 1200000
     nproc = 16
-    gsize = 400 if tier == "quick" else 3000
+    gsize = 1250 if tier == "quick" else 5000
     ngroups = (total + gsize - 1) // gsize
     jobs = [(bins, sd, g, 0, d, "grid", nproc) for g in range(nproc)]
     jobs += [(bins, sd, g, gsize, d, "seeded", 0) for g in range(ngroups)]
